@@ -23,6 +23,8 @@ type Obligation struct {
 	Trace   []string
 	ExpectSat bool // vacuity / reachability checks
 	Defs      []string
+	Replay    []replayVar
+	PkgDir    string
 	// results
 	Status  string // proved refuted undecided trivial
 	Backend string
@@ -58,6 +60,7 @@ type Verifier struct {
 	pathsPerFn    map[string]int
 	findings      []Finding
 	curCtr        *Contract
+	curReplay     []replayVar
 }
 
 func (v *Verifier) note(s string) { v.notes[s] = true }
@@ -96,7 +99,9 @@ func (v *Verifier) emit(fr *Frame, st *State, kind, clause string, goal *Term, w
 	}
 	if v.curCtr != nil {
 		o.Defs = v.curCtr.Defs
+		o.PkgDir = strings.TrimPrefix(strings.TrimPrefix(v.curCtr.Pkg, modulePath), "/")
 	}
+	o.Replay = v.curReplay
 	v.obls = append(v.obls, o)
 }
 
@@ -243,6 +248,7 @@ func (v *Verifier) verifyFunc(ctr *Contract, fn *ssa.Function) (err error) {
 			st.assume(env.evalBool(cl.Expr))
 		}
 	}
+	v.curReplay = st.flattenVars(fr.vars)
 	v.verifying = true
 	// vacuity: the precondition must be satisfiable
 	vo := &Obligation{Prop: v.prop, Func: v.curFn, Clause: "requires-sat", Kind: "vacuity", Goal: False, ExpectSat: true, What: "precondition satisfiable"}
